@@ -293,11 +293,77 @@ impl OwnedVisitor for TypedRoundTrip<'_> {
     }
 }
 
+#[derive(serde::Serialize, serde::Deserialize, Debug, PartialEq, Clone)]
+struct Borrowed3<'a> {
+    #[serde(borrow)]
+    a: &'a str,
+    n: u32,
+    #[serde(borrow)]
+    b: &'a [u8],
+    #[serde(borrow)]
+    c: &'a str,
+    f: f64,
+}
+
+/// borrowed targets: the value handed back must still be equal AFTER decoding has finished (the
+/// dynamic `Val` copies borrowed data at visit time and would hide aliasing in the scratch buffer)
+fn borrowed_targets(ctx: &Ctx) {
+    let strs = ["", "a", "temperature", "°C", "héllo wörld"];
+    let bytes: [&[u8]; 4] = [&[], &[0], &[1, 2, 3], &[0xFF; 9]];
+    let mut n = 0u64;
+    for a in strs {
+        for b in bytes {
+            for c in strs {
+                let v = Borrowed3 { a, n: 70000, b, c, f: -0.0 };
+                n += 1;
+                let r = trap(|| -> Result<(), String> {
+                    let e = postcard::to_allocvec(&v).map_err(|e| format!("{e:?}"))?;
+                    // two messages on one stream, scratch chained
+                    let mut stream = e.clone();
+                    stream.extend_from_slice(&e);
+                    stream.push(0x77);
+                    let got: Borrowed3 = postcard::from_bytes(&stream).map_err(|e| format!("from_bytes {e:?}"))?;
+                    if got != v {
+                        return Err(format!("from_bytes gave {:?}", got));
+                    }
+                    let mut scratch = vec![0u8; 2 * e.len() + 8];
+                    let (m1, rest) = postcard::from_io::<Borrowed3, _>((&stream[..], &mut scratch[..])).map_err(|e| format!("from_io #1 {e:?}"))?;
+                    let (m2, rest2) = postcard::from_io::<Borrowed3, _>(rest).map_err(|e| format!("from_io #2 {e:?}"))?;
+                    if m1 != v || m2 != v {
+                        return Err(format!("from_io gave {:?} then {:?}, expected {:?} twice", m1, m2, v));
+                    }
+                    if rest2.0 != [0x77] {
+                        return Err(format!("reader left with {} bytes, expected 1", rest2.0.len()));
+                    }
+                    let mut scratch = vec![0u8; 2 * e.len() + 8];
+                    let (m1, rest) = postcard::from_eio::<Borrowed3, _>((EioSlice(&stream[..]), &mut scratch[..])).map_err(|e| format!("from_eio #1 {e:?}"))?;
+                    let (m2, _) = postcard::from_eio::<Borrowed3, _>(rest).map_err(|e| format!("from_eio #2 {e:?}"))?;
+                    if m1 != v || m2 != v {
+                        return Err(format!("from_eio gave {:?} then {:?}", m1, m2));
+                    }
+                    Ok(())
+                });
+                let r = match r {
+                    Ok(x) => x,
+                    Err(p) => Err(format!("panic: {p}")),
+                };
+                if let Err(what) = r {
+                    ctx.violation("round-trip-borrowed", what, n, json!({"value": format!("{:?}", v)}));
+                }
+            }
+        }
+    }
+    ctx.add_evals(n);
+    ctx.add_nontrivial(n);
+    ctx.class("borrowed-struct-values", n);
+}
+
 pub fn run(ctx: &Ctx, c02: bool) {
     let (shapes, k) = shapes_for(ctx, 3, 4);
     let dom = Domain { cap: if ctx.quick() { 1024 } else { 4096 }, long: true };
     let kinds = std::sync::Mutex::new(BTreeSet::new());
     let nvals = AtomicU64::new(0);
+    let nontriv = AtomicU64::new(0);
     let samples = std::sync::Mutex::new(Vec::new());
     shapes.par_iter().enumerate().for_each(|(si, s)| {
         {
@@ -308,6 +374,8 @@ pub fn run(ctx: &Ctx, c02: bool) {
         let level = if s.nodes() <= 2 { 0 } else { 1 };
         let vals = dom.values(s, level);
         nvals.fetch_add(vals.len() as u64, Ordering::Relaxed);
+        // non-trivial by rule: the value occupies at least one byte on the wire
+        nontriv.fetch_add(vals.iter().filter(|v| spec_encode(v).map(|e| !e.is_empty()).unwrap_or(true)).count() as u64, Ordering::Relaxed);
         with_shape(s, || {
             for (vi, v) in vals.iter().enumerate() {
                 let order = (si as u64) << 24 | vi as u64;
@@ -342,13 +410,16 @@ pub fn run(ctx: &Ctx, c02: bool) {
     });
     let n = nvals.load(Ordering::Relaxed);
     ctx.add_evals(n);
-    ctx.add_nontrivial(n);
+    ctx.add_nontrivial(nontriv.load(Ordering::Relaxed));
     ctx.class("dyn-shape-values", n);
 
     if c02 {
         special_rules(ctx);
     }
     long_cases(ctx, c02);
+    if !c02 {
+        borrowed_targets(ctx);
+    }
     whole_domain_leaves(ctx, c02);
     let mut tv = TypedRoundTrip { ctx, c02, types: 0 };
     for_each_owned_type(&mut tv);
@@ -365,9 +436,9 @@ pub fn run(ctx: &Ctx, c02: bool) {
     ev.bound("data_model_kinds_exercised", json!(kinds.len()));
     ev.bound("value_product_cap", json!(dom.cap));
     ev.rule = if c02 {
-        "every shape tree with <= k nodes (lists 0..3, enums 1..2 variants + variant-index sweep) x the complete bounded value domain D(shape); to_allocvec bytes compared byte-for-byte with an independent encoder written from wire-format.md; plus SeqNoLen/MapNoLen/Display specials, whole char domain (and whole u32/i32/f32 in thorough), typed corpus recorded through an independent Serializer. Every case is a distinct (shape,value) pair; all are non-trivial (each executes the real encoder).".into()
+        "every shape tree with <= k nodes (lists 0..3, enums 1..2 variants + variant-index sweep) x the complete bounded value domain D(shape); to_allocvec bytes compared byte-for-byte with an independent encoder written from wire-format.md; plus SeqNoLen/MapNoLen/Display specials, whole char domain (and whole u32/i32/f32 in thorough), typed corpus recorded through an independent Serializer. Every case is a distinct (shape,value) pair (enumeration without repetition); non-trivial = the value occupies at least one byte on the wire.".into()
     } else {
-        "every shape tree with <= k nodes x complete bounded value domain x {to_slice,to_vec,to_stdvec,to_extend(Vec),to_extend(VecDeque),to_io,to_eio,serialized_size} x {from_bytes,take_from_bytes,from_io,from_eio} x 4 suffixes x 2 guard-page placements; Val equality is bit-for-bit; remainder compared by pointer and length. Every case is a distinct (shape,value) pair.".into()
+        "every shape tree with <= k nodes x complete bounded value domain x {to_slice,to_vec,to_stdvec,to_extend(Vec),to_extend(VecDeque),to_io,to_eio,serialized_size} x {from_bytes,take_from_bytes,from_io,from_eio} x 4 suffixes x 2 guard-page placements; Val equality is bit-for-bit; remainder compared by pointer and length. Every case is a distinct (shape,value) pair (enumeration without repetition); non-trivial = the value occupies at least one byte on the wire.".into()
     };
     for s in samples.into_inner().unwrap() {
         ev.sample(s);
